@@ -78,7 +78,7 @@ def _child(path, hashseed, verbose=False):
 def compare(inputs, seeds, tag):
     work = VERIF / ".work"
     work.mkdir(exist_ok=True)
-    path = work / f"c12_{tag}.json"
+    path = work / f"c12_{tag}_{os.getpid()}.json"
     path.write_text(json.dumps(inputs))
     results = {s: _child(path, s) for s in seeds}
     fails = []
